@@ -12,6 +12,11 @@ def _c(text, ref):
 
 
 CLAIMS = {
+    "C11": _c("Bounded symbolic model checking of the real visit()/ParallelVisitor/TypeInfoVisitor against a recursive reference "
+              "traversal (child order derived from source positions): scripted visitors whose decision table (which callback, "
+              "which of idle/skip/break/remove/replace-by-node/replace-by-value) is symbolic, one decision on 10 trees and two "
+              "decisions on small trees; assertions: identical call log (kind, key, parent, path, ancestors), identical result, "
+              "input tree untouched, identity when nothing is edited, no decision makes visit() raise.", "DESIGN.md section 7, C11"),
     "C08": _c("Bounded symbolic model checking of the real printer/lexer/parser pair: print_block_string and print_string against "
               "the lexer for every string value up to the stated length over all Unicode scalar values (plain and minimized), raw "
               "block string text against the spec's BlockStringValue, programmatically built trees with arbitrary string values at "
